@@ -3,6 +3,11 @@
 #include <signal.h>
 #include <wchar.h>
 
+#include <deque>
+#include <list>
+#include <set>
+#include <string_view>
+
 #include <phosg/Strings.hh>
 
 #include "verif.hh"
@@ -703,6 +708,340 @@ static void run_wprintf(const Case& c) {
   ctx().cls(errno_in ? "wprintf:errno-on-entry-nonzero" : "wprintf:errno-on-entry-0");
 }
 
+// ---------------------------------------------------------------- join: every way of handing the delimiter / the items over
+
+// join() is a template over the container and over the delimiter: what it emits between two items must be the
+// delimiter's VALUE, however the caller happens to hold that value - a char, a std::string, a std::string_view, a
+// pointer to a C string, a string literal, or a C string stored in a char array (exactly sized, or larger than its
+// contents: a buffer filled at run time, a struct field). The value of a pointer / char array is the C string it holds
+// (up to the first NUL), as everywhere else in C++.
+struct SeparatorField {
+  int before;
+  char separator[8];
+  int after;
+};
+
+template <typename ContainerT>
+static string ref_join(const ContainerT& items, const string& sep) {
+  string r;
+  size_t k = 0;
+  for (const auto& it : items) {
+    if (k++) r += sep;
+    r += it;
+  }
+  return r;
+}
+
+// a char array of extent N holding the C string `value` (shorter than N); the bytes after the terminator are stale
+// non-zero filler, as in a reused buffer
+template <size_t N>
+static void fill_buffer(char (&buf)[N], const string& value) {
+  memset(buf, '#', N);
+  size_t n = std::min(value.size(), N - 1);
+  memcpy(buf, value.data(), n);
+  buf[n] = 0;
+}
+
+// case: s=[text, multi-character delimiter], n=[delimiter byte]
+static void run_join(const Case& c) {
+  const string& s = c.str(0);
+  const string& multi = c.str(1);
+  char d = static_cast<char>(c.u(0));
+  vector<string> pieces = phosg::split(s, d);
+  string concat; // what an empty delimiter gives
+  for (char x : s)
+    if (x != d) concat += x;
+  // the C string that consists of the delimiter character (the empty C string when the delimiter is NUL)
+  const string& via_cstring = d ? s : concat;
+  auto same = [&](const string& got, const string& want, const char* form) {
+    VCHECK(got == want, cat("join-inverse:delimiter-as-", form), "join(split(", hex(s), ", ", (int)(unsigned char)d, "), <the delimiter as ", form, ">) == ", hex(got), " expected ", hex(want));
+  };
+  {
+    char ch = d;
+    const char cch = d;
+    same(phosg::join(pieces, ch), s, "char");
+    same(phosg::join(pieces, cch), s, "const-char");
+    string str(1, d);
+    const string cstr(1, d);
+    same(phosg::join(pieces, str), s, "std::string");
+    same(phosg::join(pieces, cstr), s, "const-std::string");
+    std::string_view sv(str);
+    same(phosg::join(pieces, sv), s, "string_view");
+    // a view of one character in the middle of a longer buffer (not NUL-terminated)
+    char around[4] = {'#', d, '#', '#'};
+    std::string_view sv_mid(around + 1, 1);
+    same(phosg::join(pieces, sv_mid), s, "string_view-into-larger-buffer");
+    const char* ptr = str.c_str();
+    same(phosg::join(pieces, ptr), via_cstring, "const-char-pointer");
+    char buf16[16];
+    fill_buffer(buf16, str.c_str());
+    char* mptr = buf16;
+    same(phosg::join(pieces, mptr), via_cstring, "char-pointer");
+    if (d != 0) {
+      // char arrays: the C string they hold. (With a NUL delimiter the array holds the empty C string; whether an
+      // exactly sized char[2]{0,0} means "empty" or "one NUL" is left open, so those forms are compared for d != 0.)
+      char exact[2] = {d, 0};
+      const char cexact[2] = {d, 0};
+      same(phosg::join(pieces, exact), s, "char[2]");
+      same(phosg::join(pieces, cexact), s, "const-char[2]");
+      char buf3[3];
+      fill_buffer(buf3, str);
+      same(phosg::join(pieces, buf3), s, "char[3]-buffer");
+      same(phosg::join(pieces, buf16), s, "char[16]-buffer");
+      char buf64[64];
+      fill_buffer(buf64, str);
+      same(phosg::join(pieces, buf64), s, "char[64]-buffer");
+      char zbuf[16];
+      memset(zbuf, 0, sizeof(zbuf));
+      zbuf[0] = d;
+      same(phosg::join(pieces, zbuf), s, "char[16]-zeroed-buffer");
+      SeparatorField f;
+      f.before = -1;
+      f.after = -1;
+      fill_buffer(f.separator, str);
+      same(phosg::join(pieces, f.separator), s, "char[8]-struct-field");
+      const SeparatorField& cf = f;
+      same(phosg::join(pieces, cf.separator), s, "const-char[8]-struct-field");
+    }
+    // string literals: only possible for delimiters fixed at compile time
+    if (d == ',') same(phosg::join(pieces, ","), s, "literal");
+    if (d == 'a') same(phosg::join(pieces, "a"), s, "literal");
+    if (d == ' ') same(phosg::join(pieces, " "), s, "literal");
+    same(phosg::join(pieces, ""), concat, "empty-literal");
+  }
+  // multi-character delimiters and other containers / item types: join is "items with the delimiter between them"
+  auto same2 = [&](const string& got, const string& want, const char* form) {
+    VCHECK(got == want, cat("join-definition:", form), "join(", pieces.size(), " pieces of ", hex(s), ", delimiter ", hex(multi), " as ", form, ") == ", hex(got), " expected ", hex(want));
+  };
+  {
+    string multi_c = multi.c_str();
+    string want = ref_join(pieces, multi), want_c = ref_join(pieces, multi_c);
+    same2(phosg::join(pieces, multi), want, "std::string");
+    std::string_view mv(multi);
+    same2(phosg::join(pieces, mv), want, "string_view");
+    string padded = "#" + multi + "#";
+    std::string_view mv_mid(padded.data() + 1, multi.size());
+    same2(phosg::join(pieces, mv_mid), want, "string_view-into-larger-buffer");
+    const char* mp = multi.c_str();
+    same2(phosg::join(pieces, mp), want_c, "const-char-pointer");
+    if (!multi_c.empty() && multi_c.size() < 8) {
+      char mb8[8], mb32[32];
+      fill_buffer(mb8, multi_c);
+      fill_buffer(mb32, multi_c);
+      same2(phosg::join(pieces, mb8), want_c, "char[8]-buffer");
+      same2(phosg::join(pieces, mb32), want_c, "char[32]-buffer");
+    }
+    same2(phosg::join(pieces, "<>"), ref_join(pieces, "<>"), "literal");
+    same2(phosg::join(pieces, ", "), ref_join(pieces, ", "), "literal");
+    // containers and item types
+    char buf16[16];
+    fill_buffer(buf16, "+");
+    char dch = d;
+    std::deque<string> dq(pieces.begin(), pieces.end());
+    std::list<string> li(pieces.begin(), pieces.end());
+    std::multiset<string> ms(pieces.begin(), pieces.end());
+    vector<const char*> ptrs;
+    vector<std::string_view> views;
+    vector<string> cpieces;
+    for (const auto& p : pieces) {
+      ptrs.push_back(p.c_str());
+      views.push_back(std::string_view(p));
+      cpieces.push_back(p.c_str());
+    }
+    vector<char> chars(s.begin(), s.end());
+    vector<string> char_items;
+    for (char x : s) char_items.push_back(string(1, x));
+    same2(phosg::join(dq, multi), want, "deque+std::string");
+    same2(phosg::join(dq, buf16), ref_join(pieces, "+"), "deque+char[16]-buffer");
+    same2(phosg::join(li, multi), want, "list+std::string");
+    same2(phosg::join(li, dch), ref_join(pieces, string(1, d)), "list+char");
+    same2(phosg::join(li, buf16), ref_join(pieces, "+"), "list+char[16]-buffer");
+    same2(phosg::join(ms, mv), ref_join(ms, multi), "multiset+string_view");
+    same2(phosg::join(views, multi), want, "string_view-items+std::string");
+    same2(phosg::join(views, buf16), ref_join(pieces, "+"), "string_view-items+char[16]-buffer");
+    same2(phosg::join(ptrs, multi), ref_join(cpieces, multi), "c-string-items+std::string");
+    same2(phosg::join(ptrs, mp), ref_join(cpieces, multi_c), "c-string-items+const-char-pointer");
+    same2(phosg::join(chars, multi), ref_join(char_items, multi), "char-items+std::string");
+    same2(phosg::join(chars, buf16), ref_join(char_items, "+"), "char-items+char[16]-buffer");
+    same2(phosg::join(views), concat, "string_view-items-no-delimiter");
+    if (pieces.size() >= 3) {
+      string arr[3] = {pieces[0], pieces[1], pieces[2]};
+      vector<string> first3(pieces.begin(), pieces.begin() + 3);
+      same2(phosg::join(arr, multi), ref_join(first3, multi), "array+std::string");
+      same2(phosg::join(arr, buf16), ref_join(first3, "+"), "array+char[16]-buffer");
+    }
+  }
+  if (pieces.size() > 1 && two_different_bytes(s)) ctx().nontrivial_case();
+  ctx().cls(d == 0 ? "join:NUL-delimiter(char-array forms not compared)" : "join:all-delimiter-forms");
+}
+
+// ---------------------------------------------------------------- the helpers called before main()
+
+// None of the helpers has a "not yet usable" phase: they are plain functions of their arguments, and a program may call
+// them from the constructor of a namespace-scope object (a registry that normalises its keys, a table built from a
+// split literal, ...), i.e. during static initialisation, before main(). This translation unit is linked BEFORE the
+// library objects (run/buildlib.py), so its namespace-scope objects are constructed before those of the library:
+// `g_before_main` calls every C08 helper on a few fixed inputs in its constructor and keeps the results. The subcheck
+// compares them with what the same call returns now (clause called-before-main:*), and runs the regular oracle of the
+// helper on the same input, so that "same as now" means "same as the reference definition".
+namespace before_main {
+
+static const char* const kHelpers[] = {"split", "wsplit", "split_context", "affix", "case_map", "replace", "strip", "comments", "skip", "split_args", "printf", "wprintf", "join"};
+constexpr size_t kNumHelpers = sizeof(kHelpers) / sizeof(kHelpers[0]);
+constexpr size_t kNumInputs = 8;
+
+static string input(size_t k) {
+  switch (k) {
+    case 0: return string();
+    case 1: return "a,b,,c";
+    case 2: return LIT(",Hello, World (x[1,2], \"q,r\")\t/* note,\n * more */ 'it\\'s' \\, z \n\0\0");
+    case 3: {
+      string s;
+      for (int b = 1; b < 256; b++) s.push_back(static_cast<char>(b));
+      s.push_back('\0');
+      return s + "Content-Type: TEXT/plain";
+    }
+    case 4: return "  \t lead and trail \r\n";
+    case 5: return "say \"hello world\" 'a b'\\ c  d\te";
+    case 6: return "((a,b),[c,{d,<e,f>}]),g,\"(\",h";
+    default: return "The Quick Brown Fox, jumps over /* the */ lazy dog; and a tail long enough to leave any small-string buffer";
+  }
+}
+
+static wstring widen(const string& s) {
+  wstring w;
+  for (char ch : s) w.push_back(static_cast<wchar_t>(static_cast<unsigned char>(ch)));
+  return w;
+}
+
+static string enc(const vector<string>& v) {
+  string r = std::to_string(v.size()) + "[";
+  for (const auto& p : v) r += std::to_string(p.size()) + ":" + p + ";";
+  return r + "]";
+}
+
+// the phosg calls of helper `h` on input `k`, results serialised
+static string call(size_t h, size_t k) {
+  const string in = input(k);
+  const string cs = in.c_str();
+  string r;
+  try {
+    switch (h) {
+      case 0: r = enc(phosg::split(in, ',')) + enc(phosg::split(in, ',', 2)) + enc(phosg::split(in, 'o', 1)); break;
+      case 1: {
+        for (const auto& p : phosg::split(widen(in), L',', 3)) r += std::to_string(p.size()) + ":" + encode_w(p) + ";";
+        break;
+      }
+      case 2: r = enc(phosg::split_context(in, ',')) + enc(phosg::split_context(in, ',', 1)); break;
+      case 3:
+        r = cat(phosg::starts_with(in, in.substr(0, 3)), phosg::ends_with(in, in.substr(in.size() - std::min<size_t>(in.size(), 3))), phosg::starts_with(in, "The"), phosg::ends_with(in, "plain"), phosg::starts_with(in, ""), phosg::ends_with(in, in + "x"));
+        break;
+      case 4: r = phosg::toupper(in) + "|" + phosg::tolower(in); break;
+      case 5: r = phosg::str_replace_all(in, "l", "LL") + "|" + phosg::str_replace_all(in, ", ", ""); break;
+      case 6: {
+        string a = in, b = in, c2 = in, e = in;
+        phosg::strip_trailing_zeroes(a);
+        phosg::strip_trailing_whitespace(b);
+        phosg::strip_leading_whitespace(c2);
+        phosg::strip_whitespace(e);
+        r = enc({a, b, c2, e});
+        break;
+      }
+      case 7: {
+        string a = in, b = in;
+        phosg::strip_multiline_comments(b, true);
+        r = enc({b});
+        phosg::strip_multiline_comments(a);
+        r += enc({a});
+        break;
+      }
+      case 8:
+        for (size_t off : {size_t(0), size_t(1), in.size() / 2, in.size()}) {
+          if (off > in.size()) continue;
+          r += cat(phosg::skip_whitespace(in, off), ",", phosg::skip_non_whitespace(in, off), ",", phosg::skip_word(in, off), ";");
+          if (off <= cs.size()) r += cat(phosg::skip_whitespace(cs.c_str(), off), ",", phosg::skip_non_whitespace(cs.c_str(), off), ",", phosg::skip_word(cs.c_str(), off), ";");
+        }
+        break;
+      case 9: r = enc(phosg::split_args(in)); break;
+      case 10: r = phosg::string_printf("%s=%d:%5.3s|%-8x|%c", cs.c_str(), static_cast<int>(in.size()), cs.c_str(), static_cast<unsigned>(in.size()), 'q'); break;
+      case 11: r = encode_w(phosg::wstring_printf(L"%ls-%d-%ls", widen(cs).c_str(), static_cast<int>(in.size()), L"end")); break;
+      default: {
+        vector<string> pieces = phosg::split(in, ',');
+        char ch = ',';
+        string str = ",";
+        const char* ptr = ",";
+        char buf[16];
+        fill_buffer(buf, str);
+        r = enc({phosg::join(pieces, ch), phosg::join(pieces, str), phosg::join(pieces, ptr), phosg::join(pieces, ","), phosg::join(pieces, buf), phosg::join(pieces, "<>"), phosg::join(pieces)});
+        break;
+      }
+    }
+  } catch (const std::runtime_error&) {
+    r += "<threw runtime_error>";
+  } catch (const std::exception&) {
+    r += "<threw another exception>";
+  } catch (...) {
+    r += "<threw a non-exception>";
+  }
+  return r;
+}
+
+struct Results {
+  string r[kNumHelpers][kNumInputs];
+  Results() {
+    for (size_t h = 0; h < kNumHelpers; h++)
+      for (size_t k = 0; k < kNumInputs; k++) r[h][k] = call(h, k);
+  }
+};
+static Results g_before_main; // constructed during static initialisation, before the library's own namespace-scope objects
+
+} // namespace before_main
+
+// case: n=[helper index, input index]
+static void run_before_main(const Case& c) {
+  size_t h = c.u(0), k = c.u(1);
+  if (h >= before_main::kNumHelpers || k >= before_main::kNumInputs) throw std::logic_error("before_main case outside domain");
+  const string in = before_main::input(k);
+  const string cs = in.c_str();
+  const string& early = before_main::g_before_main.r[h][k];
+  string now = before_main::call(h, k);
+  VCHECK(early == now, cat("called-before-main:", before_main::kHelpers[h]), before_main::kHelpers[h], " on ", hex(in), " returned ", hex(early, 120), " when called during static initialisation (from the constructor of a namespace-scope object of a translation unit linked before the library) and ", hex(now, 120), " when called from main()");
+  // ... and what it returns now is what the reference definition says (the regular oracle of that helper)
+  switch (h) {
+    case 0:
+      run_split(Case("split").S(in).N(',').N(2));
+      run_split(Case("split").S(in).N('o').N(1));
+      break;
+    case 1: run_wsplit(Case("wsplit").S(encode_w(before_main::widen(in))).N(',').N(3)); break;
+    case 2: run_split_context(Case("split_context").S(in).N(',').N(1)); break;
+    case 3:
+      for (const string& p : {in.substr(0, 3), in.substr(in.size() - std::min<size_t>(in.size(), 3)), string("The"), string("plain"), string(), in + "x"}) run_affix(Case("affix").S(in).S(p));
+      break;
+    case 4: run_case_map(Case("case_map").S(in)); break;
+    case 5:
+      run_replace(Case("replace").S(in).S("l").S("LL"));
+      run_replace(Case("replace").S(in).S(", ").S(""));
+      break;
+    case 6: run_strip(Case("strip").S(in)); break;
+    case 7: run_comments(Case("comments").S(in)); break;
+    case 8: run_skip(Case("skip").S(in).N(0).N(std::min<size_t>(1, in.size())).N(in.size() / 2).N(in.size())); break;
+    case 9: run_split_args(Case("split_args").S(in)); break;
+    case 10: {
+      string exp = ref_printf("%s=%d:%5.3s|%-8x|%c", cs.c_str(), static_cast<int>(in.size()), cs.c_str(), static_cast<unsigned>(in.size()), 'q');
+      VCHECK(now == exp, "string_printf-value:before-main-format", "string_printf result ", hex(now, 80), " differs from vsnprintf ", hex(exp, 80));
+      break;
+    }
+    case 11: {
+      wstring exp = ref_wprintf(cs.size() + 64, L"%ls-%d-%ls", before_main::widen(cs).c_str(), static_cast<int>(in.size()), L"end");
+      VCHECK(now == encode_w(exp), "wstring_printf-value:before-main-format", "wstring_printf result differs from vswprintf for ", hex(cs));
+      break;
+    }
+    default: run_join(Case("join").S(in).S("<>").N(',')); break;
+  }
+  ctx().nontrivial_case();
+  ctx().cls(cat("before_main:", before_main::kHelpers[h]));
+}
+
 // ---------------------------------------------------------------- generators
 
 static size_t gen_len(size_t big) {
@@ -744,6 +1083,14 @@ static Case gen_split() {
   string s = gen_text(string(1, d), len);
   uint64_t m = vg::coin() ? vg::below(12) : count_char(s, d) + vg::below(3) - (count_char(s, d) ? 1 : 0);
   return Case("split").S(s).N(static_cast<unsigned char>(d)).N(m);
+}
+
+static Case gen_join() {
+  char d = static_cast<char>(vg::chance(1, 3) ? vg::below(256) : vg::pick<int>({',', ' ', 'a', ';', '\n', 0, 0xFF, '#'}));
+  size_t len = vg::chance(1, 8) ? vg::scaled(4096) : vg::scaled(40);
+  string s = gen_text(string(1, d), len);
+  string multi = vg::chance(1, 4) ? string() : fastgen::bytes_from(LIT("<>, #ab\0\xff") + string(1, d), 1 + vg::below(6));
+  return Case("join").S(s).S(multi).N(static_cast<unsigned char>(d));
 }
 
 static Case gen_wsplit() {
@@ -1150,6 +1497,34 @@ static void enum_split(Enum& e) {
   e.complete(cat("every string of length <= ", maxlen, " over {delimiter, 2 other bytes} for delimiters ',', 'a', NUL x max_splits 0..11; 9 shapes x all 256 delimiters"));
 }
 
+static void enum_join(Enum& e) {
+  size_t maxlen = e.thorough() ? 8 : 6;
+  uint64_t idx = 0;
+  const vector<string> multis = {string(), "<>", ", ", LIT("a\0b")};
+  for (char d : {',', 'a', ' ', '\0'}) {
+    string alphabet = (d == ',') ? string(",ab") : (d == 'a' ? string("abc") : (d == ' ' ? string(" ab") : LIT("\0ab")));
+    for_all_strings(alphabet, maxlen, [&](const string& s) {
+      if (e.mine(idx++)) e.exec(Case("join").S(s).S(multis[idx % multis.size()]).N(static_cast<unsigned char>(d)));
+      return !e.stop;
+    });
+  }
+  for (int d = 0; d < 256 && !e.stop; d++) {
+    char o = (d == 'x') ? 'y' : 'x';
+    string D(1, static_cast<char>(d)), O(1, o);
+    for (const string& s : {string(), D, D + D, D + O, O + D, D + O + D, O + D + D + O, D + D + O, O + O})
+      if (e.mine(idx++)) e.exec(Case("join").S(s).S(D + D).N(d));
+  }
+  e.complete(cat("every string of length <= ", maxlen, " over {delimiter, 2 other bytes} for delimiters ',', 'a', space, NUL and 9 shapes x all 256 delimiters, each joined with the delimiter held as char, const char, std::string, string_view (own / into a larger buffer), const char*, char*, char[2], char[3]/[16]/[64] buffers with stale bytes after the terminator, a zeroed char[16], a char[8] struct field, string literals; multi-character delimiters in the same forms; vector, deque, list, multiset, array containers; std::string, string_view, const char* and char items"));
+}
+
+static void enum_before_main(Enum& e) {
+  uint64_t idx = 0;
+  for (size_t h = 0; h < before_main::kNumHelpers; h++)
+    for (size_t k = 0; k < before_main::kNumInputs; k++)
+      if (e.mine(idx++)) e.exec(Case("before_main").N(h).N(k));
+  e.complete(cat("every C08 helper (", before_main::kNumHelpers, " groups) x ", before_main::kNumInputs, " fixed inputs, called from the constructor of a namespace-scope object of the harness translation unit (linked before the library) and again from main()"));
+}
+
 static void enum_wsplit(Enum& e) {
   size_t maxlen = e.thorough() ? 9 : 7;
   uint64_t idx = 0;
@@ -1350,6 +1725,8 @@ static void enum_printf(Enum& e) {
 int main(int argc, char** argv) {
   vector<SubCheck> checks;
   checks.push_back({"split", run_split, gen_split, 120000, 600000, 100, enum_split});
+  checks.push_back({"join", run_join, gen_join, 40000, 250000, 100, enum_join});
+  checks.push_back({"before_main", run_before_main, nullptr, 0, 0, 100, enum_before_main});
   checks.push_back({"wsplit", run_wsplit, gen_wsplit, 40000, 200000, 100, enum_wsplit});
   checks.push_back({"split_context", run_split_context, gen_split_context, 120000, 600000, 100, enum_split_context});
   checks.push_back({"affix", run_affix, gen_affix, 60000, 400000, 100, enum_affix});
